@@ -1,4 +1,658 @@
-fn main() {
-    eprintln!("MACHINERY: engine appx is not built yet");
+//! appx — decides C09 (App routing picks the first registered match and exposes exactly its
+//! parameters) by bounded-exhaustive enumeration of route tables x requests against an independent
+//! reference router. Every table is built through the public `App` builder and driven through
+//! `actix_web::test::{init_service, call_service}`.
+
+mod ast;
+mod gen;
+mod real;
+mod refr;
+
+use std::collections::{BTreeMap, BTreeSet};
+use std::sync::atomic::{AtomicUsize, Ordering};
+use std::sync::Mutex;
+use std::time::Instant;
+
+use ast::*;
+use mc_core::report::{read_replay, Evidence, Reporter, Violation};
+use serde_json::json;
+
+const PROP: &str = "C09";
+
+fn machinery(msg: &str) -> ! {
+    eprintln!("MACHINERY: {msg}");
     std::process::exit(2);
+}
+
+/// Compare modulo fields that are not part of the oracle.
+fn norm(o: &Outcome) -> Outcome {
+    match o {
+        Outcome::Handler(s) => {
+            let mut s = s.clone();
+            s.match_pattern = None;
+            Outcome::Handler(s)
+        }
+        o => o.clone(),
+    }
+}
+
+fn kind_of(o: &Outcome) -> String {
+    match o {
+        Outcome::Handler(s) if s.tag.starts_with("d:") => "own-default".into(),
+        Outcome::Handler(_) => "route".into(),
+        Outcome::Status(404) => "builtin-404".into(),
+        Outcome::Status(405) => "builtin-405".into(),
+        Outcome::Status(n) => format!("status-{n}"),
+        Outcome::Broken(m) if m.starts_with("panic") => "panic".into(),
+        Outcome::Broken(_) => "error".into(),
+    }
+}
+
+fn tag_of(o: &Outcome) -> Option<&str> {
+    match o {
+        Outcome::Handler(s) => Some(&s.tag),
+        _ => None,
+    }
+}
+
+/// `Some((clause, signature, what))` if `got` is not an acceptable outcome.
+fn judge(t: &Table, req: &Req, exp: &refr::Expected, got: &Outcome) -> Option<(String, String, String)> {
+    let gotn = norm(got);
+    if exp.outcomes.iter().any(|e| *e == gotn) {
+        return None;
+    }
+    let primary = &exp.outcomes[0];
+    let ek = kind_of(primary);
+    let gk = kind_of(&gotn);
+
+    // --- who handled it? (clauses a / c)
+    let same_handler = match (primary, &gotn) {
+        (Outcome::Handler(e), Outcome::Handler(g)) => e.tag == g.tag,
+        (Outcome::Status(a), Outcome::Status(b)) => a == b,
+        _ => false,
+    };
+    if !same_handler {
+        // (c): does the real router behave as if %2F / %25 had been decoded before segmenting?
+        let moved = refr::decode(&req.path, b"+");
+        if moved != req.path && moved.starts_with('/') {
+            let alt = refr::route(t, &Req { path: moved.clone(), ..req.clone() });
+            let same = match (&alt.outcomes[0], &gotn) {
+                (Outcome::Handler(e), Outcome::Handler(g)) => e.tag == g.tag,
+                (Outcome::Status(a), Outcome::Status(b)) => a == b,
+                _ => false,
+            };
+            if same {
+                return Some((
+                    "c".into(),
+                    format!("boundary-moved:exp={ek},got={gk}"),
+                    format!(
+                        "request {} was routed as if its path were {moved:?}: got {} instead of {}",
+                        req.show(),
+                        show_outcome(&gotn),
+                        show_outcome(primary)
+                    ),
+                ));
+            }
+        }
+        // Known root cause: `Scope::register` hands its children the *parent's* default instead of
+        // its own, so a nested scope without default skips the enclosing scope's default and ends
+        // at the App default / built-in 404 (what the doc of `Scope::default_service` describes).
+        // Recognised only if (1) the expected default belongs to an enclosing scope reached
+        // through a default-less nested scope and (2) the real outcome is exactly what the
+        // documented App-only fallback yields.
+        if exp.kind == refr::Kind::OwnDefault && exp.default_via_parent_scope {
+            let doc = refr::route_mode(t, req, refr::DefaultMode::AppOnly);
+            if doc.outcomes.iter().any(|o| *o == gotn) {
+                return Some((
+                    "a".into(),
+                    "default:nested-scope-skips-parent-scope-default".into(),
+                    format!(
+                        "request {} on {}: nothing matches inside the nested scope (chain {:?}); nearest enclosing default is {} but got {}",
+                        req.show(),
+                        t.show(),
+                        exp.chain,
+                        show_outcome(primary),
+                        show_outcome(&gotn)
+                    ),
+                ));
+            }
+        }
+        // classify why the reference did not pick what ran
+        let why = divergence(t, exp, &gotn);
+        return Some((
+            "a".into(),
+            format!("handler:exp={ek},got={gk},why={why}"),
+            format!(
+                "request {} on {}: expected {} (chain {:?}), got {}",
+                req.show(),
+                t.show(),
+                show_outcome(primary),
+                exp.chain,
+                show_outcome(&gotn)
+            ),
+        ));
+    }
+
+    // --- same handler, different view (clauses b / c / d)
+    let (Outcome::Handler(e), Outcome::Handler(g)) = (primary, &gotn) else { unreachable!() };
+    if e.match_info != g.match_info {
+        let en: Vec<&String> = e.match_info.iter().map(|(k, _)| k).collect();
+        let gn: Vec<&String> = g.match_info.iter().map(|(k, _)| k).collect();
+        let mut es = en.clone();
+        let mut gs = gn.clone();
+        es.sort();
+        gs.sort();
+        let how = if en == gn {
+            "value"
+        } else if es == gs {
+            "order"
+        } else if gs.len() > es.len() {
+            "extra-param"
+        } else if gs.len() < es.len() {
+            "missing-param"
+        } else {
+            "other-param"
+        };
+        // a value that differs only by protected-escape decoding is a (c) matter
+        let decoded_protected = how == "value"
+            && e.match_info.iter().zip(&g.match_info).any(|((_, ev), (_, gv))| {
+                ev != gv && (ev.contains("%2F") || ev.contains("%25")) && refr::decode(ev, b"") == refr::decode(gv, b"")
+            });
+        let clause = if decoded_protected { "c" } else { "b" };
+        return Some((
+            clause.into(),
+            format!("match_info:{how}:{ek}"),
+            format!(
+                "request {} on {}: handler {} saw match_info {:?}, expected {:?}",
+                req.show(),
+                t.show(),
+                g.tag,
+                g.match_info,
+                e.match_info
+            ),
+        ));
+    }
+    if e.path_vec != g.path_vec || e.path_tuple != g.path_tuple {
+        let which = if e.path_tuple != g.path_tuple { "tuple" } else { "vec" };
+        let failed = (e.path_tuple != g.path_tuple && g.path_tuple.is_none())
+            || (e.path_vec != g.path_vec && g.path_vec.is_none());
+        return Some((
+            "b".into(),
+            format!("web-path:{which}:{}:{ek}", if failed { "extraction-failed" } else { "value" }),
+            format!(
+                "request {} on {}: handler {} extracted web::Path vec={:?} tuple={:?}, expected vec={:?} tuple={:?} (match_info {:?})",
+                req.show(),
+                t.show(),
+                g.tag,
+                g.path_vec,
+                g.path_tuple,
+                e.path_vec,
+                e.path_tuple,
+                g.match_info
+            ),
+        ));
+    }
+    if e.marker != g.marker {
+        let lvl = |m: &Option<String>| match m.as_deref() {
+            None => "none".to_string(),
+            Some("app") => "app".to_string(),
+            Some(sid) => {
+                // position of that scope on the expected chain: depth 1 / 2, or off-chain
+                match exp.chain.iter().position(|c| c == sid) {
+                    Some(i) => format!("scope-depth{}", i + 1),
+                    None => "off-chain-scope".to_string(),
+                }
+            }
+        };
+        return Some((
+            "d".into(),
+            format!("app_data:exp={},got={}:{ek}", lvl(&e.marker), lvl(&g.marker)),
+            format!(
+                "request {} on {}: handler {} resolved app_data::<Marker>() to {:?}, innermost registration on its route is {:?}",
+                req.show(),
+                t.show(),
+                g.tag,
+                g.marker,
+                e.marker
+            ),
+        ));
+    }
+    Some(("a".into(), "unclassified".into(), format!("{} vs {}", show_outcome(&gotn), show_outcome(primary))))
+}
+
+/// Why did the reference not choose the node that actually ran?
+fn divergence(t: &Table, exp: &refr::Expected, got: &Outcome) -> String {
+    let Some(tag) = tag_of(got) else {
+        // a built-in response (or breakage) instead of the expected one
+        return match (exp.kind.clone(), got) {
+            (refr::Kind::Route, Outcome::Status(405)) => "no-route-accepted".into(),
+            (refr::Kind::Res405, Outcome::Status(404)) => "resource-default-is-404".into(),
+            (refr::Kind::Builtin404, Outcome::Status(405)) => "405-without-matched-resource".into(),
+            (refr::Kind::Route, Outcome::Status(404)) => "matching-service-skipped".into(),
+            (refr::Kind::OwnDefault, Outcome::Status(_)) => "own-default-not-used".into(),
+            _ => "other".into(),
+        };
+    };
+    let Some(gchain) = refr::chain_of_tag(t, tag) else { return "unknown-tag".into() };
+    let is_default = tag.starts_with("d:");
+    // first level where the two chains part
+    let mut i = 0;
+    while i < exp.chain.len() && i < gchain.len() && exp.chain[i] == gchain[i] {
+        i += 1;
+    }
+    if i == gchain.len() {
+        // got node is an ancestor-or-self of the expected chain
+        if is_default {
+            return match exp.kind {
+                // same request, a default registered at another level answered
+                refr::Kind::OwnDefault | refr::Kind::Builtin404 => "other-default-owner".into(),
+                _ if i == exp.chain.len() => "default-instead-of-service".into(),
+                _ => "default-although-inner-service-matches".into(),
+            };
+        }
+        if i == exp.chain.len() {
+            return "other-route-of-same-resource".into();
+        }
+        return "other".into();
+    }
+    // got chain enters node gchain[i] that the reference did not enter at level i
+    let g = &gchain[i];
+    let kindname = if g.starts_with('s') { "scope" } else { "resource" };
+    if let Some(ev) = exp.evals.get(i).and_then(|l| l.iter().find(|e| &e.node == g)) {
+        let why = match (ev.pattern_ok, ev.guard_ok) {
+            (true, false) => "guard-rejected",
+            (false, true) => "pattern-mismatch",
+            (false, false) => "pattern-mismatch+guard-rejected",
+            (true, true) => "inconsistent",
+        };
+        format!("{why}-{kindname}-ran")
+    } else if i < exp.chain.len() {
+        format!("earlier-matching-service-skipped-for-later-{kindname}")
+    } else {
+        format!("escaped-to-unrelated-{kindname}")
+    }
+}
+
+fn show_outcome(o: &Outcome) -> String {
+    match o {
+        Outcome::Handler(s) => format!(
+            "handler {} [match_info {:?}, Path {:?}, marker {:?}]",
+            s.tag, s.match_info, s.path_vec, s.marker
+        ),
+        Outcome::Status(n) => format!("built-in {n}"),
+        Outcome::Broken(m) => format!("BROKEN({m})"),
+    }
+}
+
+/// Non-triviality rule for `distinct_nontrivial`.
+fn nontrivial(exp: &refr::Expected) -> bool {
+    let nested = exp.chain.iter().filter(|c| c.starts_with('s')).count() >= 1;
+    match exp.kind {
+        refr::Kind::Route => nested && exp.nparams >= 1,
+        // default fallback exercised after at least one service captured the request
+        refr::Kind::Res405 => true,
+        refr::Kind::OwnDefault | refr::Kind::Builtin404 => !exp.chain.is_empty(),
+    }
+}
+
+/// Outcome class: handler identity + parameter names + marker (no captured values).
+fn class_of(got: &Outcome) -> String {
+    match got {
+        Outcome::Handler(s) => format!(
+            "{}|{}|{}",
+            s.tag,
+            s.match_info.iter().map(|(k, _)| k.as_str()).collect::<Vec<_>>().join(","),
+            s.marker.as_deref().unwrap_or("-")
+        ),
+        Outcome::Status(n) => format!("status{n}"),
+        Outcome::Broken(_) => "broken".into(),
+    }
+}
+
+#[derive(Default)]
+struct Totals {
+    evaluations: u64,
+    tables: u64,
+    nontrivial_evals: u64,
+    distinct_nontrivial: u64,
+    distinct_classes: u64,
+    by_kind: BTreeMap<String, u64>,
+    pct_evals: u64,
+    violations: Vec<Violation>,
+    violating_cases: u64,
+    samples: Vec<serde_json::Value>,
+    nondeterministic: Vec<String>,
+}
+
+struct TableResult {
+    evaluations: u64,
+    nontrivial_evals: u64,
+    distinct_nontrivial: u64,
+    distinct_classes: u64,
+    by_kind: BTreeMap<String, u64>,
+    pct_evals: u64,
+    violations: BTreeMap<(String, String), Violation>,
+    violating_cases: u64,
+    sample: Option<serde_json::Value>,
+    nondeterministic: Option<String>,
+}
+
+async fn run_table(ti: usize, t: &Table, paths: &[String], recheck: bool, want_sample: bool) -> TableResult {
+    let app = real::init(t).await;
+    let reqs = gen::requests(t, paths);
+    let size = t.size();
+    let mut res = TableResult {
+        evaluations: 0,
+        nontrivial_evals: 0,
+        distinct_nontrivial: 0,
+        distinct_classes: 0,
+        by_kind: BTreeMap::new(),
+        pct_evals: 0,
+        violations: BTreeMap::new(),
+        violating_cases: 0,
+        sample: None,
+        nondeterministic: None,
+    };
+    let mut classes: BTreeSet<String> = BTreeSet::new();
+    let mut nt_classes: BTreeSet<String> = BTreeSet::new();
+    for (ri, req) in reqs.iter().enumerate() {
+        let exp = refr::route(t, req);
+        let got = real::call(&app, req).await;
+        res.evaluations += 1;
+        if req.path.contains('%') {
+            res.pct_evals += 1;
+        }
+        *res.by_kind.entry(kind_of(&got)).or_default() += 1;
+        let class = class_of(&got);
+        let nt = nontrivial(&exp);
+        if nt {
+            res.nontrivial_evals += 1;
+            nt_classes.insert(class.clone());
+            if want_sample && res.sample.is_none() && exp.nparams >= 1 && req.path.contains('%') {
+                res.sample = Some(json!({
+                    "table": t.show(),
+                    "request": req.show(),
+                    "observed": got,
+                    "expected_chain": exp.chain,
+                }));
+            }
+        }
+        classes.insert(class);
+        let verdict = judge(t, req, &exp, &got);
+        if recheck || verdict.is_some() {
+            // determinism: same case, same observation
+            let again = real::call(&app, req).await;
+            if again != got {
+                res.nondeterministic = Some(format!(
+                    "table {} request {}: {:?} then {:?}",
+                    t.show(),
+                    req.show(),
+                    got,
+                    again
+                ));
+            }
+        }
+        if let Some((clause, signature, what)) = verdict {
+            res.violating_cases += 1;
+            let weight = (size.min(0xffff) << 48) | ((req.path.len() as u64).min(0xff) << 40) | ((ti as u64 & 0xff_ffff) << 16) | (ri as u64 & 0xffff);
+            let v = Violation {
+                property: PROP.into(),
+                clause: clause.clone(),
+                signature: signature.clone(),
+                what,
+                replay: json!({ "table": t, "request": req, "table_shown": t.show() }),
+                weight,
+            };
+            match res.violations.get(&(clause.clone(), signature.clone())) {
+                Some(old) if old.weight <= weight => {}
+                _ => {
+                    res.violations.insert((clause, signature), v);
+                }
+            }
+        }
+    }
+    res.distinct_classes = classes.len() as u64;
+    res.distinct_nontrivial = nt_classes.len() as u64;
+    res
+}
+
+fn replay(file: &str) -> i32 {
+    let v = read_replay(file);
+    let body = v.get("replay").cloned().unwrap_or(v.clone());
+    let table: Table = match serde_json::from_value(body["table"].clone()) {
+        Ok(t) => t,
+        Err(e) => machinery(&format!("replay file has no table: {e}")),
+    };
+    let req: Req = match serde_json::from_value(body["request"].clone()) {
+        Ok(r) => r,
+        Err(e) => machinery(&format!("replay file has no request: {e}")),
+    };
+    if !table.well_formed() {
+        machinery("replay table is outside the grammar");
+    }
+    println!("table:    {}", table.show());
+    println!("request:  {}", req.show());
+    println!("routing path (after re-quoting): {}", refr::routing_path(&req.path));
+    let exp = refr::route(&table, &req);
+    let (got, again) = actix_rt::System::new().block_on(async {
+        let app = real::init(&table).await;
+        let a = real::call(&app, &req).await;
+        let b = real::call(&app, &req).await;
+        (a, b)
+    });
+    println!("reference: {}", show_outcome(&exp.outcomes[0]));
+    for alt in &exp.outcomes[1..] {
+        println!("   (also acceptable: {})", show_outcome(alt));
+    }
+    println!("reference chain: {:?}", exp.chain);
+    println!("real:      {}", show_outcome(&got));
+    if let Outcome::Handler(s) = &got {
+        println!("real match_pattern (not judged): {:?}", s.match_pattern);
+        println!("real web::Path tuple: {:?}", s.path_tuple);
+    }
+    if got != again {
+        machinery("replay is not deterministic");
+    }
+    match judge(&table, &req, &exp, &got) {
+        Some((clause, signature, what)) => {
+            println!("STILL FAILS clause={clause} signature={signature}");
+            println!("  {what}");
+            1
+        }
+        None => {
+            println!("passes");
+            0
+        }
+    }
+}
+
+fn main() {
+    let args = mc_core::cli::parse();
+    if args.property != PROP {
+        machinery(&format!("appx serves C09 only, not {}", args.property));
+    }
+    if let Some(f) = &args.replay {
+        std::process::exit(replay(f));
+    }
+    let thorough = args.tier == "thorough";
+    let t0 = Instant::now();
+
+    // keep expected handler panics (caught and reported as outcomes) from flooding stderr
+    std::panic::set_hook(Box::new(|info| {
+        let msg = info.to_string();
+        if msg.contains("MACHINERY") {
+            eprintln!("{msg}");
+        }
+    }));
+
+    let menus = gen::menus(thorough);
+    let fams = gen::families(&menus);
+    let tables = gen::all_tables(&fams);
+    let paths = gen::paths();
+    let n = tables.len();
+
+    // VERIF_SEED only permutes the processing order
+    let seed: u64 = std::env::var("VERIF_SEED").ok().and_then(|s| s.parse().ok()).unwrap_or(0);
+    let mut order: Vec<usize> = (0..n).collect();
+    if seed != 0 {
+        let mut x = seed | 1;
+        for i in (1..n).rev() {
+            x ^= x << 13;
+            x ^= x >> 7;
+            x ^= x << 17;
+            order.swap(i, (x % (i as u64 + 1)) as usize);
+        }
+    }
+
+    let wall_cap = args.wall_s.unwrap_or(if thorough { 1500 } else { 55 });
+    let next = AtomicUsize::new(0);
+    let totals = Mutex::new(Totals::default());
+    let fam_counts: Mutex<BTreeMap<usize, (u64, u64)>> = Mutex::new(BTreeMap::new());
+    let capped = std::sync::atomic::AtomicBool::new(false);
+    let threads = mc_core::cli::threads();
+    // one written-out sample per family: from the first table of each family
+    let sample_tables: BTreeSet<usize> = {
+        let mut seen_f = BTreeSet::new();
+        tables.iter().enumerate().filter(|(_, (fi, _))| seen_f.insert(*fi)).map(|(i, _)| i).collect()
+    };
+
+    std::thread::scope(|sc| {
+        for _ in 0..threads {
+            sc.spawn(|| {
+                let r = std::panic::catch_unwind(|| {
+                    actix_rt::System::new().block_on(async {
+                        loop {
+                            let k = next.fetch_add(1, Ordering::Relaxed);
+                            if k >= n {
+                                break;
+                            }
+                            if t0.elapsed().as_secs() >= wall_cap {
+                                capped.store(true, Ordering::Relaxed);
+                                break;
+                            }
+                            let ti = order[k];
+                            let (fi, t) = &tables[ti];
+                            // determinism re-check on a fixed subset of tables
+                            let recheck = ti % 97 == 0;
+                            let r = run_table(ti, t, &paths, recheck, sample_tables.contains(&ti)).await;
+                            let mut tot = totals.lock().unwrap();
+                            tot.tables += 1;
+                            tot.evaluations += r.evaluations;
+                            tot.nontrivial_evals += r.nontrivial_evals;
+                            tot.distinct_nontrivial += r.distinct_nontrivial;
+                            tot.distinct_classes += r.distinct_classes;
+                            tot.pct_evals += r.pct_evals;
+                            tot.violating_cases += r.violating_cases;
+                            for (k, v) in r.by_kind {
+                                *tot.by_kind.entry(k).or_default() += v;
+                            }
+                            tot.violations.extend(r.violations.into_values());
+                            if let Some(s) = r.sample {
+                                tot.samples.push(json!({"table_index": ti, "case": s}));
+                            }
+                            if let Some(nd) = r.nondeterministic {
+                                tot.nondeterministic.push(nd);
+                            }
+                            drop(tot);
+                            let mut fc = fam_counts.lock().unwrap();
+                            let e = fc.entry(*fi).or_default();
+                            e.0 += 1;
+                            e.1 += r.evaluations;
+                        }
+                    })
+                });
+                if let Err(p) = r {
+                    let msg = p
+                        .downcast_ref::<String>()
+                        .cloned()
+                        .or_else(|| p.downcast_ref::<&str>().map(|s| s.to_string()))
+                        .unwrap_or_else(|| "panic".into());
+                    // a panic outside a request (registration / service initialisation) means the
+                    // generator produced a table the builder rejects: machinery problem
+                    eprintln!("MACHINERY: worker panicked outside a request: {msg}");
+                    std::process::exit(2);
+                }
+            });
+        }
+    });
+
+    let mut tot = totals.into_inner().unwrap();
+    if !tot.nondeterministic.is_empty() {
+        tot.nondeterministic.sort();
+        machinery(&format!("nondeterministic observation: {}", tot.nondeterministic[0]));
+    }
+    let capped = capped.load(Ordering::Relaxed);
+    let wall = t0.elapsed().as_secs_f64();
+
+    let mut rep = Reporter::new(PROP);
+    // deterministic merge: weights are unique per (table, request)
+    tot.violations.sort_by_key(|v| v.weight);
+    rep.total_violating_cases = 0;
+    for v in tot.violations.drain(..) {
+        rep.add(v);
+    }
+    tot.samples.sort_by_key(|s| s["table_index"].as_u64());
+
+    let fam_counts = fam_counts.into_inner().unwrap();
+    let fam_json: Vec<_> = fams
+        .iter()
+        .enumerate()
+        .map(|(i, f)| {
+            let (tb, ev) = fam_counts.get(&i).copied().unwrap_or((0, 0));
+            json!({"family": f.name, "grammar": f.describe, "generated": f.tables.len(), "new_tables_run": tb, "evaluations": ev})
+        })
+        .collect();
+
+    let mut ev = Evidence::new(PROP, &args.tier, "exploration");
+    ev.set("evaluations", tot.evaluations)
+        .set("distinct_nontrivial", tot.distinct_nontrivial)
+        .set(
+            "rule",
+            "evaluation = one (route table, request) pair run through the real App and the reference router. \
+             Tables: union of the families listed under 'families' (each the full cartesian product of its holes, deduplicated). \
+             Requests per table: every path of 1..3 segments over {a,b,s,1,'',a%2Fb,%61,%25} and every 4-segment path over {a,s,1}, \
+             each with and without trailing slash, x {GET,POST} x x-g {absent,1} x Host {absent,h.test} (header dimensions only varied when the table has such a guard). \
+             distinct_nontrivial = number of distinct (table, outcome class) pairs, outcome class = handler tag + captured parameter names + resolved marker (captured values ignored), \
+             counted only when non-trivial: the route handler that ran lies inside >= 1 scope and saw >= 1 path parameter, \
+             or a default was exercised after a service had captured the request (405 of a matched resource, own/inherited default of a captured scope).",
+        )
+        .set("samples", tot.samples.clone())
+        .set("exhaustive", !capped)
+        .set("capped", capped)
+        .set("tables", tot.tables)
+        .set("tables_in_grammar", n as u64)
+        .set("paths_per_table", paths.len() as u64)
+        .set("nontrivial_evaluations", tot.nontrivial_evals)
+        .set("distinct_outcome_classes", tot.distinct_classes)
+        .set("evaluations_with_percent_escape", tot.pct_evals)
+        .set("observed_kinds", json!(tot.by_kind))
+        .set("families", fam_json)
+        .set("violating_cases", tot.violating_cases)
+        .set("violation_signatures", rep.summaries())
+        .set("threads", threads as u64);
+    ev.assume("reference router implements the documented behaviour listed at the top of appx/src/refr.rs")
+        .assume("a scope without own default falls back to the nearest enclosing default (literal reading of the statement); the doc of Scope::default_service says 'the default service of the parent App' and the code does that: recorded as known finding default:nested-scope-skips-parent-scope-default; APPX_DOC_DEFAULT=1 switches the reference to the documented behaviour (diagnostic only)")
+        .assume("an own default registered further out than the scope that falls back to it may see either the inner or the outer captures/app_data (both accepted)")
+        .assume("req.match_pattern() is recorded but not judged (not part of the statement)")
+        .assume("x-g / Host request headers are only varied for tables that contain a Header / Host guard");
+    ev.wall_s = wall;
+    ev.violations = rep.unknown_count() as i64;
+    ev.write();
+
+    println!(
+        "appx C09 tier={} tables={}/{} evaluations={} nontrivial_evals={} distinct_nontrivial={} violating_cases={} signatures={} (known {}) capped={} wall={:.1}s",
+        args.tier,
+        tot.tables,
+        n,
+        tot.evaluations,
+        tot.nontrivial_evals,
+        tot.distinct_nontrivial,
+        tot.violating_cases,
+        rep.distinct(),
+        rep.known_count(),
+        capped,
+        wall
+    );
+    let code = rep.finish();
+    std::process::exit(code);
 }
